@@ -315,7 +315,7 @@ class XsdMinInclusiveFacet(XsdFacet):
 
     def __call__(self, value: Any) -> None:
         try:
-            if value < self.value:
+            if value < self.value or value != value:  # NaN is never within a bound
                 reason = _("value has to be greater or equal than {!r}").format(self.value)
                 raise XMLSchemaValidationError(self, value, reason)
         except TypeError as err:
@@ -359,7 +359,7 @@ class XsdMinExclusiveFacet(XsdFacet):
 
     def __call__(self, value: Any) -> None:
         try:
-            if value <= self.value:
+            if value <= self.value or value != value:
                 reason = _("value has to be greater than {!r}").format(self.value)
                 raise XMLSchemaValidationError(self, value, reason)
         except TypeError as err:
@@ -397,7 +397,7 @@ class XsdMaxInclusiveFacet(XsdFacet):
 
     def __call__(self, value: Any) -> None:
         try:
-            if value > self.value:
+            if value > self.value or value != value:
                 reason = _("value has to be less than or equal than {!r}").format(self.value)
                 raise XMLSchemaValidationError(self, value, reason)
         except TypeError as err:
@@ -441,7 +441,7 @@ class XsdMaxExclusiveFacet(XsdFacet):
 
     def __call__(self, value: Any) -> None:
         try:
-            if value >= self.value:
+            if value >= self.value or value != value:
                 reason = _("value has to be lesser than {!r}").format(self.value)
                 raise XMLSchemaValidationError(self, value, reason)
         except TypeError as err:
